@@ -317,6 +317,12 @@ class Processor:
         elif not self.has(key):
             # Do not silently create a new attribute (e.g. with a misspelt key)
             raise AttributeError(f"Cannot set {key!r}: this parameter does not exist !")
+        elif hasattr(type(obj), att) and not isinstance(
+            getattr(type(obj), att), property
+        ):
+            # A method or any other attribute of the class (e.g. 'to_dict', '__eq__')
+            # is not a parameter: do not overwrite it
+            raise AttributeError(f"Cannot set {key!r}: this is not a parameter !")
         else:
             setattr(obj, att, new_value)
 
